@@ -14,6 +14,10 @@ CHECKS = {
                 technique="runtime monitoring with fault injection: every cut offset / I/O-error offset / framing-byte corruption through the scripted transport, strict RFC 9112 reference decoder as online prefix oracle after every read",
                 text="Enumerates every truncation offset, every offset replaced by an I/O error (sticky and one-shot, followed by 0..4 further reads) and every single-byte corruption of every chunk-framing byte for 30 fixed bases (all framings), plus random and >64 KiB-chunk bases; after every read the bytes handed out must be a prefix of what a strict reference decoder says was really sent, and a damaged frame must end with Err.",
                 note="Trusts the reference decoder and its gray-zone classification (lenient-parser deviations are executed but not judged beyond the prefix rule). Complete for the fixed bases; sampled elsewhere."),
+    "C03": dict(cat="exploration", design="DESIGN.md §3 C03",
+                technique="runtime monitoring over a bounded-exhaustive configuration matrix: scripted responses whose trailing bytes make each framing interpretation recognisable, reference decision list as oracle",
+                text="Enumerates method x status x Content-Length configuration x Transfer-Encoding configuration x extra bytes (20k heads, x3 segmentations in thorough) through the production pipeline; the body delivered must be the one of the framing the RFC 9112 §6.3 decision list selects, and invalid or disagreeing lengths must fail the exchange.",
+                note="The decision list in the harness is written from the statement; combinations the statement does not fix are executed but not judged (listed in the evidence assumptions)."),
 }
 
 NOT_APPLICABLE = {}
